@@ -31,6 +31,30 @@ import (
 
 const c19Watchdog = 120 * time.Second
 
+// c19Violation reports a violation; after c19MaxSignatures distinct signatures further new signatures are
+// only counted (a broken build would otherwise write thousands of replay files); the check fails all the same.
+const c19MaxSignatures = 60
+
+var c19Sigs = struct {
+	sync.Mutex
+	seen map[string]bool
+}{seen: map[string]bool{}}
+
+func c19Violation(run *vlib.Run, oracle, sig, msg string, witness any) {
+	c19Sigs.Lock()
+	known := c19Sigs.seen[sig]
+	n := len(c19Sigs.seen)
+	if !known && n < c19MaxSignatures {
+		c19Sigs.seen[sig] = true
+	}
+	c19Sigs.Unlock()
+	if known || n < c19MaxSignatures {
+		run.Violation(oracle, sig, msg, witness)
+		return
+	}
+	run.Count("violations_with_further_signatures_beyond_the_cap", 1)
+}
+
 // distinct (write path, read path) pairs and input features seen by the monitors of this process
 var c19Seen = struct {
 	sync.Mutex
@@ -42,6 +66,11 @@ var c19WritePaths = []string{"PUT", "POST", "bulk_docs", "PUT-new_edits=false", 
 // keys a client must not set (not among the documented added properties): a write carrying one must be
 // rejected, or the key must round-trip.
 var c19MustNotSet = []string{"_sync", "_sync_x", "_sync_", "_purged", "_sync_meta"}
+
+// documented reserved names that some write paths refuse and others consume (they are among the added
+// properties the comparator removes, so their round trip is not judged): bodies carrying one are only used
+// for the escaping differential - the decision to accept or refuse must not depend on how the key is spelled.
+var c19DifferentialOnly = []string{"_id", "_rev", "_deleted", "_revisions"}
 
 type c19Rev struct {
 	Stage string // rev1 / rev2 / rev3
@@ -63,6 +92,8 @@ type c19Doc struct {
 	Feats    []string
 	Reserved bool
 	Twin     *c19Rev // reserved cases: the same value with the opposite key escaping
+	DiffOnly bool    // written only for the escaping differential
+	ResKey   string
 }
 
 func (d *c19Doc) byRev(rev string) *c19Rev {
@@ -83,6 +114,7 @@ type c19Ctx struct {
 	vseq   uint64
 	sample sync.Once
 	noted  map[string]int
+	esc    map[string][]map[string]any // write path -> escaping differentials that disagreed
 }
 
 // note keeps at most two notes per category (the counters carry the totals).
@@ -238,7 +270,7 @@ func (c *c19Ctx) check(d *c19Doc, rv *c19Rev, read string, got *c19C, returned s
 		}
 	}
 	if got == nil || got.K != c19KObj {
-		run.Violation("value-equality", "C19|"+pair+"|returned-body-not-a-json-object", fmt.Sprintf("doc %s (%s) read through %s: %s", d.ID, rv.Stage, read, c19Trunc(returned, 300)), witness(nil))
+		c19Violation(run, "value-equality", "C19|"+pair+"|returned-body-not-a-json-object", fmt.Sprintf("doc %s (%s) read through %s: %s", d.ID, rv.Stage, read, c19Trunc(returned, 300)), witness(nil))
 		return
 	}
 	diff := c19Equal(c19StripAdded(rv.Exp), c19StripAdded(got), "$", true)
@@ -249,7 +281,7 @@ func (c *c19Ctx) check(d *c19Doc, rv *c19Rev, read string, got *c19C, returned s
 		}
 		return
 	}
-	run.Violation("value-equality", "C19|"+pair+"|"+diff.Class,
+	c19Violation(run, "value-equality", "C19|"+pair+"|"+diff.Class,
 		fmt.Sprintf("doc %s %s written through %s as %s, read through %s: at %s expected %s got %s", d.ID, rv.Stage, rv.WPath, c19Trunc(rv.Text, 400), read, diff.Path, diff.Expected, diff.Got), witness(diff))
 }
 
@@ -261,7 +293,7 @@ func (c *c19Ctx) readFailed(d *c19Doc, rv *c19Rev, read, why, detail, request st
 		return
 	}
 	c.run.Count("reads_failed", 1)
-	c.run.Violation("read-availability", "C19|write="+rv.WPath+"|read="+read+"|input="+c19InputClass(rv)+"|read-failed:"+why,
+	c19Violation(c.run, "read-availability", "C19|write="+rv.WPath+"|read="+read+"|input="+c19InputClass(rv)+"|read-failed:"+why,
 		fmt.Sprintf("doc %s %s written through %s as %s was accepted but %s failed: %s", d.ID, rv.Stage, rv.WPath, c19Trunc(rv.Text, 400), read, c19Trunc(detail, 400)),
 		map[string]any{"case": d.CI, "doc_id": d.ID, "revision": rv.Rev, "write_path": rv.WPath, "written_body": rv.Text, "read_path": read, "read_request": request, "response": c19Trunc(detail, 4000), "features": d.Feats})
 }
@@ -271,7 +303,7 @@ func (c *c19Ctx) rejected(d *c19Doc, status string) {
 	d.Status = status
 	c.run.Count("writes_rejected", 1)
 	us := c19TopUnderscoreKeys(d.R1.Exp)
-	if len(us) > 0 {
+	if len(us) > 0 || d.Reserved {
 		c.run.Count("writes_rejected_with_underscore_keys", 1)
 		for _, k := range us {
 			c.run.Distinct("rejected_underscore_keys", d.WPath+":"+k)
@@ -500,7 +532,7 @@ func (c *c19Ctx) checkPull(read string, pulled map[string]c19Pulled, docs []*c19
 			got, err := c19Parse(p.Body)
 			if err != nil {
 				c.run.Eval()
-				c.run.Violation("value-equality", "C19|write="+rv.WPath+"|read="+read+"|returned-body-not-valid-json",
+				c19Violation(c.run, "value-equality", "C19|write="+rv.WPath+"|read="+read+"|returned-body-not-valid-json",
 					fmt.Sprintf("doc %s written through %s as %s: rev message body %s: %v", d.ID, rv.WPath, c19Trunc(rv.Text, 300), c19Trunc(string(p.Body), 300), err),
 					map[string]any{"case": d.CI, "doc_id": d.ID, "write_path": rv.WPath, "written_body": rv.Text, "read_path": read, "returned_body": string(p.Body), "properties": p.Props})
 				continue
@@ -529,7 +561,7 @@ func (c *c19Ctx) getDoc(d *c19Doc, rv *c19Rev, read, query string, allow404 bool
 	got, err := c19Parse(raw)
 	if err != nil {
 		c.run.Eval()
-		c.run.Violation("value-equality", "C19|write="+rv.WPath+"|read="+read+"|response-not-valid-json",
+		c19Violation(c.run, "value-equality", "C19|write="+rv.WPath+"|read="+read+"|response-not-valid-json",
 			fmt.Sprintf("doc %s written through %s as %s: %s returned %s: %v", d.ID, rv.WPath, c19Trunc(rv.Text, 300), request, c19Trunc(string(raw), 300), err),
 			map[string]any{"case": d.CI, "doc_id": d.ID, "write_path": rv.WPath, "written_body": rv.Text, "read_request": request, "response": c19Trunc(string(raw), 6000)})
 		return nil, false
@@ -678,7 +710,7 @@ func (c *c19Ctx) bulkBroken(read string, docs []*c19Doc, pick func(d *c19Doc, go
 			hi = len(raw)
 		}
 		c.run.Eval()
-		c.run.Violation("value-equality", "C19|read="+read+"|whole-response-not-valid-json",
+		c19Violation(c.run, "value-equality", "C19|read="+read+"|whole-response-not-valid-json",
 			fmt.Sprintf("%s returned status %d with a body that is not valid JSON (%v); around the error: %q; documents that cannot be read on their own either: %v", read, code, perr, raw[lo:hi], culprits),
 			map[string]any{"read_path": read, "status": code, "parse_error": fmt.Sprint(perr), "response_around_error": string(raw[lo:hi]), "documents_failing_on_their_own": culprits})
 	}()
@@ -701,7 +733,7 @@ func (c *c19Ctx) bulkBroken(read string, docs []*c19Doc, pick func(d *c19Doc, go
 		if resp.Code != 200 || err != nil {
 			c.run.Eval()
 			culprit(d, rv)
-			c.run.Violation("value-equality", "C19|write="+rv.WPath+"|read="+read+"|input="+c19InputClass(rv)+"|response-not-valid-json",
+			c19Violation(c.run, "value-equality", "C19|write="+rv.WPath+"|read="+read+"|input="+c19InputClass(rv)+"|response-not-valid-json",
 				fmt.Sprintf("doc %s written through %s as %s: %s -> %d %s: %v", d.ID, rv.WPath, c19Trunc(rv.Text, 300), request, resp.Code, c19Trunc(string(r), 400), err),
 				map[string]any{"case": d.CI, "doc_id": d.ID, "write_path": rv.WPath, "written_body": rv.Text, "read_path": read, "read_request": request, "response": c19Trunc(string(r), 6000), "features": d.Feats})
 			continue
@@ -787,7 +819,7 @@ func (c *c19Ctx) readBulkGet(read string, items []c19BulkGetItem, allow404 bool)
 		got, perr := c19Parse(parts[i])
 		if perr != nil {
 			c.run.Eval()
-			c.run.Violation("value-equality", "C19|write="+rv.WPath+"|read="+read+"|response-not-valid-json",
+			c19Violation(c.run, "value-equality", "C19|write="+rv.WPath+"|read="+read+"|response-not-valid-json",
 				fmt.Sprintf("doc %s written through %s as %s: _bulk_get part %s: %v", it.d.ID, rv.WPath, c19Trunc(rv.Text, 300), c19Trunc(string(parts[i]), 300), perr),
 				map[string]any{"case": it.d.CI, "doc_id": it.d.ID, "write_path": rv.WPath, "written_body": rv.Text, "read_path": read, "revision": it.rev, "response_part": string(parts[i])})
 			continue
@@ -843,7 +875,7 @@ func (c *c19Ctx) readOpenRevs(d *c19Doc, read string, multi bool, query string, 
 			doc, perr := c19Parse(p)
 			if perr != nil {
 				c.run.Eval()
-				c.run.Violation("value-equality", "C19|write="+want[0].WPath+"|read="+read+"|response-not-valid-json", fmt.Sprintf("doc %s: %s part %s: %v", d.ID, request, c19Trunc(string(p), 300), perr),
+				c19Violation(c.run, "value-equality", "C19|write="+want[0].WPath+"|read="+read+"|response-not-valid-json", fmt.Sprintf("doc %s: %s part %s: %v", d.ID, request, c19Trunc(string(p), 300), perr),
 					map[string]any{"case": d.CI, "doc_id": d.ID, "written_body": want[0].Text, "read_request": request, "response_part": string(p)})
 				continue
 			}
@@ -853,7 +885,7 @@ func (c *c19Ctx) readOpenRevs(d *c19Doc, read string, multi bool, query string, 
 		whole, err := c19Parse(raw)
 		if err != nil || whole.K != c19KArr {
 			c.run.Eval()
-			c.run.Violation("value-equality", "C19|write="+want[0].WPath+"|read="+read+"|response-not-valid-json", fmt.Sprintf("doc %s: %s returned %s: %v", d.ID, request, c19Trunc(string(raw), 400), err),
+			c19Violation(c.run, "value-equality", "C19|write="+want[0].WPath+"|read="+read+"|response-not-valid-json", fmt.Sprintf("doc %s: %s returned %s: %v", d.ID, request, c19Trunc(string(raw), 400), err),
 				map[string]any{"case": d.CI, "doc_id": d.ID, "written_bodies": []string{want[0].Text}, "read_request": request, "response": c19Trunc(string(raw), 6000)})
 			return
 		}
@@ -878,12 +910,13 @@ func c19CaseBody(r *vlib.Rand, ci int, reserved bool) (*c19V, []string) {
 	}
 	g := &c19Gen{r: r, max: 8, feat: map[string]bool{}}
 	v := g.object(1, 2, true)
-	key := c19MustNotSet[ci%len(c19MustNotSet)]
+	pool := append(append([]string{}, c19MustNotSet...), c19DifferentialOnly...)
+	key := pool[ci%len(pool)]
 	vals := []*c19V{
 		{K: c19KBool, B: true}, {K: c19KBool, B: false}, {K: c19KNum, N: "1"}, {K: c19KStr, S: []rune("x")}, {K: c19KObj, M: []c19Mem{}},
 		{K: c19KObj, M: []c19Mem{{Key: []rune("rev"), Val: &c19V{K: c19KStr, S: []rune("1-abc")}}, {Key: []rune("sequence"), Val: &c19V{K: c19KNum, N: "1"}}}}, {K: c19KNull},
 	}
-	m := c19Mem{Key: []rune(key), Val: vals[(ci/len(c19MustNotSet))%len(vals)]}
+	m := c19Mem{Key: []rune(key), Val: vals[(ci/len(pool))%len(vals)]}
 	pos := r.Intn(len(v.M) + 1)
 	v.M = append(v.M[:pos], append([]c19Mem{m}, v.M[pos:]...)...)
 	return v, []string{"must-not-set:" + key}
@@ -974,6 +1007,10 @@ func c19PathsChunk(t *testing.T, run *vlib.Run, chunkNo, start, end, total int) 
 				}
 				d := &c19Doc{CI: ci, WPath: wp, ID: fmt.Sprintf("c19-%s-%d-%d", c.tag, ci, wi), Feats: feats, Reserved: isRes}
 				if isRes {
+					d.ResKey = strings.TrimPrefix(feats[0], "must-not-set:")
+					for _, k := range c19DifferentialOnly {
+						d.DiffOnly = d.DiffOnly || k == d.ResKey
+					}
 					// the reserved key is spelled literally in one rendering and with \u escapes in its twin
 					st1.Esc = 2 * ((ci + wi) % 2)
 					stT := &c19Style{r: r.Fork(uint64(70 + wi)), WS: st1.WS, Esc: 2 - st1.Esc}
@@ -1033,6 +1070,12 @@ func c19PathsChunk(t *testing.T, run *vlib.Run, chunkNo, start, end, total int) 
 		c.bulkDocs(bulkNE, true)
 		for _, d := range docs {
 			c.twin(d)
+			if d.DiffOnly && d.Accepted {
+				// (e.g. a body with _deleted:true is a tombstone: its reads are not C19's subject)
+				d.Accepted = false
+				d.Status = "written for the escaping differential only"
+				run.Count("differential_only_documents", 1)
+			}
 		}
 		rt.WaitForPendingChanges()
 
@@ -1174,6 +1217,8 @@ func c19PathsChunk(t *testing.T, run *vlib.Run, chunkNo, start, end, total int) 
 		batchNo++
 	}
 
+	c.reportEscapeDifferentials()
+
 	// ---------------- final sweep: the winners of all documents through the feed-style read paths
 	rt.WaitForPendingChanges()
 	rt.GetDatabase().FlushRevisionCacheForTest()
@@ -1287,6 +1332,11 @@ func (c *c19Ctx) twin(d *c19Doc) {
 	if d.Twin == nil || d.Status == "inconclusive" {
 		return
 	}
+	if d.ResKey == "_id" && (d.WPath == "POST" || strings.HasPrefix(d.WPath, "bulk_docs")) {
+		// POST and _bulk_docs take the document id from the body's _id: the two writes would address the
+		// same (or another) document and are not independent
+		return
+	}
 	ok, _, status := c.writeSingle(d.WPath, d.ID+"-twin", d.Twin, d.CI)
 	if status == "inconclusive" {
 		return
@@ -1297,22 +1347,38 @@ func (c *c19Ctx) twin(d *c19Doc) {
 		c.run.Count("escape_differentials_consistent", 1)
 		return
 	}
-	keys := c19TopUnderscoreKeys(d.R1.Exp)
-	key := "?"
-	for _, k := range keys {
-		for _, m := range c19MustNotSet {
-			if k == m {
-				key = k
-			}
-		}
-	}
 	acc, rej, rejStatus := d.R1.Text, d.Twin.Text, status
 	if ok {
 		acc, rej, rejStatus = d.Twin.Text, d.R1.Text, d.Status
 	}
-	c.run.Violation("reserved-properties", "C19|write="+d.WPath+"|key="+key+"|accepted-or-rejected-depending-on-key-escaping",
-		fmt.Sprintf("the same JSON value is rejected when written through %s as %s (%s) but accepted and stored when written as %s", d.WPath, c19Trunc(rej, 300), rejStatus, c19Trunc(acc, 300)),
-		map[string]any{"case": d.CI, "write_path": d.WPath, "reserved_key": key, "rejected_rendering": rej, "rejection": rejStatus, "accepted_rendering": acc, "doc_ids": []string{d.ID, d.ID + "-twin"}})
+	if c.esc == nil {
+		c.esc = map[string][]map[string]any{}
+	}
+	c.esc[d.WPath] = append(c.esc[d.WPath], map[string]any{"case": d.CI, "reserved_key": d.ResKey, "rejected_rendering": rej, "rejection": rejStatus,
+		"accepted_rendering": acc, "doc_ids": []string{d.ID, d.ID + "-twin"}})
+	c.run.Count("escape_differentials_disagreeing:"+d.WPath+":"+d.ResKey, 1)
+}
+
+// reportEscapeDifferentials emits one violation per write path whose accept/reject decision depended on the
+// spelling of a reserved key (all keys and up to three examples per key in the witness).
+func (c *c19Ctx) reportEscapeDifferentials() {
+	for wp, list := range c.esc {
+		keys := map[string]int{}
+		var examples []map[string]any
+		for _, e := range list {
+			k := e["reserved_key"].(string)
+			keys[k]++
+			if keys[k] <= 3 {
+				examples = append(examples, e)
+			}
+		}
+		first := list[0]
+		c19Violation(c.run, "reserved-properties", "C19|write="+wp+"|reserved-key-accepted-or-rejected-depending-on-key-escaping",
+			fmt.Sprintf("through %s the same JSON value is refused when the reserved key is spelled literally but accepted and stored when it is spelled with \\u escapes (or the reverse); keys and counts: %v; e.g. refused: %s (%v) accepted: %s",
+				wp, keys, c19Trunc(first["rejected_rendering"].(string), 300), first["rejection"], c19Trunc(first["accepted_rendering"].(string), 300)),
+			map[string]any{"write_path": wp, "keys": keys, "examples": examples})
+	}
+	c.esc = nil
 }
 
 // withExtras renders nothing new: it splices extra top-level members (given as JSON text) into the
